@@ -17,6 +17,8 @@ import json
 import os
 import subprocess
 import sys
+import threading
+import time
 from concurrent.futures import ThreadPoolExecutor
 
 import vlib
@@ -87,37 +89,81 @@ def rx_universe(mx, rich):
 
 
 class ReplayPipe:
-    """TLC's REPLAY lines are piped straight into replay_channel (no behaviour file: a thorough run prints GBs)."""
+    """TLC's REPLAY lines are piped straight into replay_channel (no behaviour file: a thorough run prints GBs).
+
+    Nothing here waits without a bound: the replayer has its own watchdog (a call into sozu that never returns is a
+    `hang:*` violation and the process ends at once; a stuck harness ends with exit 4), a guard thread kills a
+    replayer that refuses input for STALL seconds (a blocked write() cannot be interrupted from the writing thread),
+    and when the consumer is gone the producer (TLC) is stopped through vlib.StopReplay."""
+
+    STALL = 420
 
     def __init__(self, binary, out_path, threads):
         self.out_path = out_path
         self.out = open(out_path, "wb")
+        self.err_path = out_path + ".err"
+        self.err = open(self.err_path, "wb")      # a file, not a pipe: a full stderr pipe would block the replayer
         self.p = subprocess.Popen([binary, "--threads", str(threads)], stdin=subprocess.PIPE, stdout=self.out,
-                                  stderr=subprocess.PIPE)
+                                  stderr=self.err)
         self.n = 0
+        self.gone = None
+        self.stalled = False
+        self.write_started = None
+        self.closed = False
+        threading.Thread(target=self._guard, daemon=True).start()
+
+    def _guard(self):
+        while not self.closed and self.p.poll() is None:
+            time.sleep(2)
+            t = self.write_started
+            if t is not None and time.time() - t > self.STALL:
+                self.stalled = True
+                self.p.kill()
+                return
 
     def write(self, obj):
+        if self.gone:
+            raise vlib.StopReplay(self.gone)
+        data = (json.dumps(obj, separators=(",", ":")) + "\n").encode()
+        self.write_started = time.time()
         try:
-            self.p.stdin.write((json.dumps(obj, separators=(",", ":")) + "\n").encode())
-            self.n += 1
-        except (BrokenPipeError, ValueError):
+            self.p.stdin.write(data)
+        except (BrokenPipeError, ValueError, OSError) as e:
+            self.gone = "replay_channel is gone (%s)" % type(e).__name__
+            raise vlib.StopReplay(self.gone)
+        finally:
+            self.write_started = None
+        self.n += 1
+
+    def abort(self):
+        self.closed = True
+        try:
+            self.p.kill()
+            self.p.wait(timeout=10)
+        except Exception:
             pass
 
-    def finish(self, timeout=1500):
+    def finish(self, timeout=900):
+        self.write_started = time.time()          # flushing the last buffered lines may block too
         try:
             self.p.stdin.close()
         except OSError:
             pass
+        self.write_started = None
         try:
-            err = self.p.stderr.read()
             rc = self.p.wait(timeout=timeout)
         except subprocess.TimeoutExpired:
-            self.p.kill()
+            self.abort()
             raise vlib.ToolError("replay_channel timed out")
+        self.closed = True
         self.out.close()
+        self.err.close()
+        err = open(self.err_path, "rb").read()[-3000:].decode("utf-8", "replace")
+        if self.stalled:
+            raise vlib.ToolError("replay_channel accepted no input for %d s (harness stuck): killed" % self.STALL)
         if rc != 0:
-            sys.stderr.write(err.decode("utf-8", "replace")[-3000:])
-            raise vlib.ToolError("replay_channel exited %s" % rc)
+            sys.stderr.write(err)
+            raise vlib.ToolError("replay_channel exited %s%s" % (rc, " (its watchdog: harness stuck / starved)" if rc == 4 else ""))
         res = []
         for line in open(self.out_path, "rb").read().decode("utf-8", "replace").splitlines():
             if line.startswith("{"):
@@ -126,6 +172,16 @@ class ReplayPipe:
                 except ValueError:
                     pass
         return res
+
+
+def piped(pipe, **kw):
+    """One TLC generator run streamed into a replayer; neither process survives a failure of the other."""
+    try:
+        g = vlib.tlc(replay_sink=pipe.write, want_replay=True, **kw)
+    except BaseException:
+        pipe.abort()
+        raise
+    return g, pipe.finish()
 
 
 def check_model(rep, r, what):
@@ -259,10 +315,8 @@ def run(tier, replay=None):
             InjUndec=[9, 20, gm], InjShort=[0, 7], InjOver=[gm + 1, gm + 8]), invariants="EmitHist")
         def gen(cfg=cfg, gi=gi, gm=gm):
             pipe = ReplayPipe(build.result()["replay_channel"], os.path.join(wd, "replay_%d_%d.out" % (gi, gm)), 6)
-            g = vlib.tlc("Channel", cfg, PID, workers=4 if thorough else 3, timeout=1500,
-                         simulate="num=%d" % (1200 if thorough else 350), depth=81, want_replay=True,
-                         replay_sink=pipe.write)
-            return g, pipe.finish()
+            return piped(pipe, module="Channel", cfg=cfg, pid=PID, workers=4 if thorough else 3, timeout=1500,
+                         simulate="num=%d" % (1200 if thorough else 350), depth=81)
         gen_jobs.append(pool.submit(gen))
 
     # ---- 3b. transition tables: every buffer state x every argument of the four step functions
@@ -274,8 +328,7 @@ def run(tier, replay=None):
             InjOver=[gm + 1, gm + 8], Deviations=devs), invariants="EmitTables")
         def tab(cfg=cfg, gi=gi, gm=gm):
             pipe = ReplayPipe(build.result()["replay_channel"], os.path.join(wd, "replay_tab_%d_%d.out" % (gi, gm)), 4)
-            g = vlib.tlc("Channel", cfg, PID, workers=2, timeout=1500, want_replay=True, replay_sink=pipe.write)
-            return g, pipe.finish()
+            return piped(pipe, module="Channel", cfg=cfg, pid=PID, workers=2, timeout=1500)
         gen_jobs.append(pool.submit(tab))
 
     # ---- 4. I->S driver ---------------------------------------------------------------------------------
@@ -326,7 +379,11 @@ def run(tier, replay=None):
         if not summ:
             raise vlib.ToolError("replay_channel produced no summary")
         summ = summ[0]
-        if summ["behaviours"] + summ.get("tables", 0) != g["n_replays"]:
+        # the replayer ends early with its verdict when a call into the code under test never returns
+        early = bool(summ.get("aborted")) and any(o.get("kind") == "violation" and str(o.get("class", "")).startswith("hang:") for o in out)
+        if g.get("stopped") and not early:
+            raise vlib.ToolError("TLC was stopped (%s) but the replayer reported no hang" % g["stopped"])
+        if not early and summ["behaviours"] + summ.get("tables", 0) != g["n_replays"]:
             raise vlib.ToolError("replay_channel executed %d of %d behaviours" % (summ["behaviours"] + summ.get("tables", 0), g["n_replays"]))
         if sample_beh is None and summ.get("first_behaviour"):
             sample_beh = summ["first_behaviour"]
@@ -348,7 +405,7 @@ def run(tier, replay=None):
                 continue            # one replay file per kind of disagreement
             seen.add(key)
             rep.violation(v["class"], "; ".join(v["problems"])[:380], v,
-                          name="behaviour_%s_%s_%d.json" % (v["class"], v["op"].get("op"), len(rep.violations)))
+                          name="behaviour_%s_%s_%d.json" % (v["class"].replace(":", "-"), v["op"].get("op"), len(rep.violations)))
     # one replayed behaviour, compactly, as a sample
     if sample_beh:
         def show(st):
@@ -384,8 +441,17 @@ def run(tier, replay=None):
             for line in r["out"].splitlines():
                 if "FIRST-UNEXPLAINED-EVENT" in line:
                     first = line[:400]
-            rep.violation("trace", "init=%d max=%d: event %d of %s: %s %s" % (summ["init"], summ["max"], consumed + 1,
-                          r["total"], why, first), cut_run(tp, consumed), name="trace_%d_%d.ndjson" % (summ["init"], summ["max"]))
+            cut = cut_run(tp, consumed)
+            klass = "trace"
+            try:        # a panic / a call that never returned is recorded by the driver as an event of its own
+                last = json.loads(cut.splitlines()[-1])
+                if last.get("op") in ("Panic", "Hang"):
+                    klass = "%s:%s" % (last["op"].lower(), last.get("call", "?"))
+                    why = "%s of the code under test in %s: %s;" % (last["op"].lower(), last.get("call", "?"), str(last.get("message", ""))[:160])
+            except (ValueError, IndexError):
+                pass
+            rep.violation(klass, "init=%d max=%d: event %d of %s: %s %s" % (summ["init"], summ["max"], consumed + 1,
+                          r["total"], why, first), cut, name="trace_%d_%d.ndjson" % (summ["init"], summ["max"]))
         if summ["panics"]:
             vlib.log("driver recorded %d panic(s) of the code under test" % summ["panics"])
     # thorough: the binding must reject a corrupted trace (self-test of Trace_Channel)
